@@ -128,6 +128,32 @@ class Ctx(object):
         }
 
 
+def raised_in_asynq(e):
+    """'file:line in function' if the exception was raised by asynq code called (directly or not) from the
+    harness's last frame, else None"""
+    tb = traceback.extract_tb(e.__traceback__)
+    last_harness = -1
+    for i, fr in enumerate(tb):
+        if "/harness/" in fr.filename:
+            last_harness = i
+    for fr in reversed(tb[last_harness + 1:]):
+        f = fr.filename.replace("\\", "/")
+        if "/asynq/" in f or f.startswith("asynq/"):
+            return "%s:%s in %s" % (f.split("/asynq/")[-1] if "/asynq/" in f else f, fr.lineno, fr.name)
+    return None
+
+
+def safe_check(sub, case, ctx):
+    try:
+        viol = sub.check(case, ctx)
+    except Exception as e:
+        where = raised_in_asynq(e)
+        if where is None:
+            raise              # a defect of the harness itself: exit 2, never a VIOLATION
+        viol = [("%s.unexpected:%s" % (ctx.prop, type(e).__name__), "asynq raised %s: %s at %s, which the property's oracle does not allow here" % (type(e).__name__, str(e)[:200], where))]
+    return [(s, m) for (s, m) in viol]
+
+
 class _Found(Exception):
     pass
 
@@ -139,8 +165,7 @@ def run_sub(ctx, sub, regress_cases=()):
 
     def evaluate(case):
         ctx.begin(case)
-        viol = sub.check(case, ctx)
-        return [(s, m) for (s, m) in viol]
+        return safe_check(sub, case, ctx)
 
     # 1. regression inputs (bypass Hypothesis)
     for case in regress_cases:
@@ -238,7 +263,7 @@ def greedy_reduce(ctx, sub, case, viol, sig, budget=3000):
                 break
             try:
                 ctx.begin(cand)
-                v2 = sub.check(cand, ctx)
+                v2 = safe_check(sub, cand, ctx)
             except Exception:
                 continue      # not a well-formed program any more
             if any(s == sig for s, m in v2):
